@@ -23,6 +23,10 @@ ov=$("$VERIF/bin/overlaygen" -repo "$REPO" -verif "$VERIF" -out "$run" -goroot "
 if ! (cd "$REPO" && go test -c -vet=off -tags verif -overlay "$ov" -o "$run/verif.test" . ) > "$run/build.log" 2>&1; then
   echo "HARNESS-ERROR build failed"; tail -40 "$run/build.log"; exit 2
 fi
+if [ "$REPO" != "/repo" ] && [ -z "${VERIF_OUT_DIR:-}" ]; then
+  export VERIF_OUT_DIR=$VERIF/build/scratch-repo-out   # runs against a scratch copy never touch evidence/
+  mkdir -p "$VERIF_OUT_DIR"
+fi
 export VERIF_CHECK=$id
 if [ "$mode" = "--replay" ]; then
   export VERIF_REPLAY=${3:?missing replay file}
